@@ -6,6 +6,7 @@ the current working tree.
 """
 from __future__ import annotations
 
+import asyncio
 import fcntl
 import hashlib
 import json
@@ -14,6 +15,7 @@ import random
 import re
 import subprocess
 import sys
+import threading
 import time
 from dataclasses import dataclass, field
 from pathlib import Path
@@ -295,6 +297,31 @@ def case_digest(case: Any) -> str:
     return hashlib.sha1(json.dumps(case, sort_keys=True, default=str).encode()).hexdigest()[:16]
 
 
+class CaseTimeout(Exception):
+    pass
+
+
+def _with_watchdog(fam: "Family", c):
+    """impl(c) under a wall-clock limit: code under test that never finishes (a future nobody resolves, a loop that spins) must
+    cost one case, not the check.  SIGALRM in the worker's main thread; 120 s for virtual-clock families, 300 s for wall-clock ones."""
+    import signal
+
+    limit = float(os.environ.get("NAUYACA_CASE_TIMEOUT", "0") or 0) or (300.0 if getattr(fam, "realtime", False) else 120.0)
+    if not hasattr(signal, "setitimer") or threading.current_thread() is not threading.main_thread():
+        return fam.impl(c)
+
+    def _alarm(_sig, _frm):
+        raise CaseTimeout(f"the case did not finish within {limit:.0f} s")
+
+    old = signal.signal(signal.SIGALRM, _alarm)
+    signal.setitimer(signal.ITIMER_REAL, limit)
+    try:
+        return fam.impl(c)
+    finally:
+        signal.setitimer(signal.ITIMER_REAL, 0)
+        signal.signal(signal.SIGALRM, old)
+
+
 def run_family(fam: Family, cases: list[Any], use_model: bool = True) -> FamResult:
     """Run impl (+ oracle) on every case, then the model in one driver batch, and diff."""
     res = FamResult(fam.name)
@@ -307,8 +334,8 @@ def run_family(fam: Family, cases: list[Any], use_model: bool = True) -> FamResu
             obs.append(None)
             continue
         try:
-            o = fam.impl(c)
-        except Exception as e:  # harness failure, not a verdict
+            o = _with_watchdog(fam, c)
+        except (Exception, asyncio.CancelledError) as e:  # harness failure, not a verdict
             import traceback
 
             res.errors.append({"case": c, "error": f"{type(e).__name__}: {e}", "tb": traceback.format_exc()[-1500:]})
